@@ -999,3 +999,16 @@ v("c16-int-input-range-by-bit-length", "C16", "DOMAIN-GUARDS", T + "scalars.py",
 v("c14-wrappers-stripped-wholesale", "C14", "WRAPPER-PAIRING", V + "rules/overlapping_fields_can_be_merged.py",
   "    if is_list_type(type1):\n        return (\n            do_types_conflict(type1.of_type, type2.of_type)\n            if is_list_type(type2)\n            else True\n        )\n    if is_list_type(type2):\n        return True\n    if is_non_null_type(type1):\n        return (\n            do_types_conflict(type1.of_type, type2.of_type)\n            if is_non_null_type(type2)\n            else True\n        )\n    if is_non_null_type(type2):\n        return True\n",
   "    if is_non_null_type(type1) != is_non_null_type(type2) or is_list_type(type1) != is_list_type(type2):\n        return True\n    type1 = get_named_type(type1)\n    type2 = get_named_type(type2)\n")
+
+# -- round 7 ---------------------------------------------------------------------------------------------------
+v("c06-flag-before-wait", "C06", "FLAG-THEN-CANCEL", E + "incremental/stream_item_queue.py",
+  "            pending = [future for future in self._pending_futures if not future.done()]\n            if pending:\n                await gather(*pending, return_exceptions=True)\n            self._aborted = True\n",
+  "            self._aborted = True\n            pending = [future for future in self._pending_futures if not future.done()]\n            if pending:\n                await gather(*pending, return_exceptions=True)\n")
+v("c09-advance-through-alias", "C09", "TOKEN-COUNT", L + "parser.py",
+  "        token = self._lexer.token\n        if token.kind == TokenKind.NAME and token.value == value:\n            self.advance_lexer()\n            return True",
+  "        lexer = self._lexer\n        token = lexer.token\n        if token.kind == TokenKind.NAME and token.value == value:\n            lexer.advance()\n            return True")
+v("c20-assume-valid-rebound", "C20", "ASSUME-VALID-FRESH", U + "build_ast_schema.py",
+  "    if not (assume_valid or assume_valid_sdl):", "    assume_valid = assume_valid or assume_valid_sdl\n    if not assume_valid:")
+v("ok-c12-limit-in-local", "C12", "LIMIT", V + "validate.py",
+  "        if len(errors) >= max_errors:", "        if len(errors) >= error_limit:",
+  extra_edits=[{"file": V + "validate.py", "old": "    if max_errors is None:\n        max_errors = 100\n", "new": "    error_limit = 100 if max_errors is None else max_errors\n"}], expect="silent")
